@@ -33,6 +33,7 @@ class State:
         self.kernel_calls: list = []
         self.obligations: list = []
         self.denoms: dict = {}
+        self.nonzero_conditions = False
 
 
 ST = State()
@@ -50,6 +51,7 @@ def reset(facts=()):
     ST.kernel_calls = []
     ST.obligations = []
     ST.denoms = {}
+    ST.nonzero_conditions = False
     for h in RESET_HOOKS:
         h()
     for f in facts:
